@@ -15,6 +15,8 @@ ASSUME = [
     "connect latency are the deviations offered at every send/recv/connect/accept below the library",
     "bounds: every choice sequence with at most D deviations (environment deviations + preemptions) per configuration; "
     "a violation needing more deviations or a longer script is not excluded",
+    "tf=1 configurations: a send(2) on an established TCP socket may be answered -1/ENOBUFS or -1/ENOMEM once with "
+    "the connection unaffected (send(2) documents both); the application then goes on using the connection",
     "receive capacities start at 1 (a capacity-0 receive returns 0, indistinguishable from EOF)",
 ]
 
@@ -44,6 +46,17 @@ def configs(tier):
                                         ("T3", "spec", 2, 3), ("T4", "spec", 2, 3)):
             c.append(("tp=%s,script=%s,style=%s,%s" % (tp, script, style, M), d_q if q else d_t))
         c.append(("tp=%s,script=T1s,ma=b,mb=b,%s" % (tp, M), 2 if q else 3))
+    # the peer sends, flushes and closes; this end first writes into the closed connection (EPIPE) and only then reads:
+    # every message the peer had accepted must still come out before the end-of-stream
+    for tp, dq, dt in (("tcp", 2, 4), ("ux", 3, 4), ("utls", 3, 4), ("tls", 2, 3), ("utlstls", 2, 3)):
+        c.append(("tp=%s,script=T7,style=spec,%s" % (tp, M), dq if q else dt))
+        c.append(("tp=%s,script=T7,ma=b,mb=b,%s" % (tp, M), (dq if q else dt) - 1))
+    # a send(2) answered ENOBUFS/ENOMEM with the connection itself unaffected (tf=1); the application then flushes,
+    # offers the same message again and flushes: the peer's sequence must remain the sequence of successful sends
+    for tp, dq, dt in (("tcp", 2, 3), ("tls", 1, 2), ("utlstls", 1, 2)):
+        c.append(("tp=%s,script=T1s,style=spec,tf=1,menu=0,%s" % (tp, M), dq if q else dt))
+        c.append(("tp=%s,script=T1s,ma=b,mb=b,tf=1,menu=0,%s" % (tp, M), dq if q else dt))
+        c.append(("tp=%s,script=T2,style=loop,tf=1,menu=0x9,%s" % (tp, M), dq if q else dt))
     # sanitizer build again at a lower bound
     for tp in ("tcp", "tls", "ux", "utlstls"):
         c.append(("tp=%s,script=T1,%s" % (tp, M), 1 if q else 2, "asan"))
@@ -54,5 +67,5 @@ def configs(tier):
 def run(chk, tier, jobs, deadline):
     chk.assumptions += ASSUME
     msgfamily.run_configs(chk, "h_msg", configs(tier), PREFIXES, jobs,
-                          deadline or (420 if tier == "quick" else 2700),
+                          deadline or (600 if tier == "quick" else 2700),
                           counter_names={0: "quiescent_points_probed"})
